@@ -19,6 +19,8 @@ clause of the statement is a direct comparison against the generated input:
                of the image (and the pixel values expand() gives); get_aux_files (--autoload) offers compressed
                <image>_bkg/_rms files like uncompressed ones, and `aegean --autoload` / `--background --noise` end up with
                the same background/noise arrays and source count for both
+  blanked maps  NaN / inf blocks, rows, columns and single pixels: finite nodes not next to a non-finite sample exact, complete
+               cells one cell away from every non-finite sample reproduced (clauses nodes / linear)
   file_spelling_*  a file named as pathlib.Path, bytes path or open binary file object is accepted like the str name
                and gives the same result (compress, expand; Path/bytes also load_image_band and load_globals)
 
@@ -61,7 +63,9 @@ MIN_REACH = {'fits_tools:compress': 1, 'fits_tools:expand': 1, 'fits_tools:load_
              'source_finder:SourceFinder._load_aux_image': 1, 'source_finder:get_aux_files': 1, 'CLI.aegean:main': 1}
 MIN_COUNTERS = {
     'quick': {'roundtrips': 15000, 'roundtrips_file': 1000, 'nodes_checked': 100000, 'linear_cells_judged': 5000,
-              'residual_rows_and_cols': 3000, 'factor_gt_size': 500, 'aux_loads': 100, 'file_spellings_judged': 100, 'file_spelling_Path': 40, 'file_spelling_fileobj': 20,
+              'residual_rows_and_cols': 3000, 'factor_gt_size': 500, 'aux_loads': 100, 'blank_roundtrips': 200, 'blank_roundtrips_file': 40, 'blank_roundtrips_with_blank_samples': 100,
+              'blank_clean_nodes_checked': 10000, 'blank_clean_cells_judged': 5000, 'higher_axis_wcs_keywords_compared': 2000,
+              'file_spellings_judged': 100, 'file_spelling_Path': 40, 'file_spelling_fileobj': 20,
               'file_spelling_bytes': 40, 'autoload_offers_checked': 3, 'cli_aux_route_autoload': 3, 'cli_aux_route_explicit': 3,
               'crpix_special_values': 3000, 'crpix_equals_1_minus_factor': 400,
               'crpix_equals_1_minus_factor_axis1': 150, 'crpix_equals_1_minus_factor_axis2': 150, 'bane_compressed_runs': 4, 'bane_products_judged': 8, 'bane_cli_runs': 2,
@@ -75,7 +79,9 @@ MIN_COUNTERS = {
                  'aux_loads': 400, 'integer_pixel_roundtrips': 15000, 'integer_pixel_roundtrips_file': 2000,
                  'integer_linear_images_factor_not_power_of_2': 5000, 'cd_headers': 8000, 'cd_rotated': 4000, 'cd_skewed': 4000,
                  'offdiagonal_cd_terms_compared': 15000, 'noninteger_crpix': 8000, 'negative_cdelt2': 3000,
-                 'sr6_runs': 100, 'file_spellings_judged': 400, 'file_spelling_Path': 160, 'file_spelling_fileobj': 80,
+                 'sr6_runs': 100, 'blank_roundtrips': 1000, 'blank_roundtrips_file': 200, 'blank_roundtrips_with_blank_samples': 500,
+                 'blank_clean_nodes_checked': 50000, 'blank_clean_cells_judged': 25000, 'higher_axis_wcs_keywords_compared': 10000,
+                 'file_spellings_judged': 400, 'file_spelling_Path': 160, 'file_spelling_fileobj': 80,
                  'file_spelling_bytes': 160, 'autoload_offers_checked': 12, 'cli_aux_route_autoload': 12,
                  'cli_aux_route_explicit': 12, 'crpix_special_values': 9000, 'crpix_equals_1_minus_factor': 1200,
                  'crpix_equals_1_minus_factor_axis1': 500, 'crpix_equals_1_minus_factor_axis2': 500, 'bane_compressed_runs': 16, 'bane_products_judged': 32, 'bane_cli_runs': 8,
@@ -305,6 +311,12 @@ def judge(o, wit, orig_img, orig_hdr, comp_data, exp_data, exp_hdr, f, KL, judge
             o.violate('wcs_keys', dict(wit, key=k, restored=repr(exp_hdr[k]), original=repr(orig_hdr[k])))
     untouched = ['CRVAL1', 'CRVAL2', 'CTYPE1', 'CTYPE2', 'CUNIT1', 'CUNIT2', 'EQUINOX', 'RADESYS', 'LONPOLE', 'LATPOLE',
                  'CROTA2', 'BMAJ', 'BMIN', 'BPA'] + [k for k in orig_hdr if str(k).startswith(('PC', 'PV'))]
+    # the degenerate frequency / stokes axes of 3-D and 4-D inputs: their WCS keywords belong to "the WCS keywords"
+    higher = [k for k in orig_hdr if len(str(k)) == 6 and str(k)[:5] in ('CRPIX', 'CDELT', 'CRVAL', 'CTYPE', 'CUNIT')
+              and str(k)[5] in '345']
+    if higher:
+        o.count('higher_axis_wcs_keywords_compared', len(higher))
+    untouched += higher
     for k in untouched:
         if k in orig_hdr and (k not in exp_hdr or exp_hdr[k] != orig_hdr[k]):
             o.violate('wcs_keys_untouched', dict(wit, key=k, restored=repr(exp_hdr.get(k)), original=repr(orig_hdr[k])))
@@ -395,7 +407,10 @@ def roundtrip(ft, fits, o, rng, rows, cols, f, idx, mode, tmp, linear=True, dtyp
     hdr, hinfo = header_for(idx, rows, cols, rng, f=f)
     img, KL = make_image(rows, cols, f, rng, linear=linear, dtype=dtype)
     data_in = img.reshape((1,) * extra_axes + img.shape)
+    if extra_axes > 1:
+        hdr['CTYPE4'], hdr['CRPIX4'], hdr['CRVAL4'], hdr['CDELT4'] = 'STOKES', 1.0, 1.0, 1.0
     if extra_axes:
+        hdr['CUNIT3'] = 'Hz'
         hdr['CTYPE3'] = 'FREQ'
         hdr['CRPIX3'] = 1.0
         hdr['CRVAL3'] = 1.4e9
@@ -597,6 +612,142 @@ def aux_case(o, rng, rows, cols, f, idx, tmp):
         if use == 'load_globals' and tuple(got['compressed'][2]) != (rows, cols):
             o.violate('aux_shape', dict(wit, by='load_globals image', got=list(got['compressed'][2])))
     o.sample = dict(wit, note='compressed bkg/rms accepted by load_image_band, _load_aux_image, load_globals')
+
+
+# ----------------------------------------------------------------------------- blanked regions (NaN / inf) in the map
+PATTERNS = ('corner_ur', 'corner_ul', 'corner_lr', 'corner_ll', 'central', 'single_node', 'single_pixel', 'node_row',
+            'row', 'node_col', 'col', 'two_blocks')
+
+
+def blank_case(o, ft, fits, rng, rows, cols, f, idx, mode, tmp, pattern):
+    """a map that is bilinear between its nodes with a blanked region (NaN, sometimes inf): every finite node that is not
+    next to a non-finite sample must come back exactly, and every complete cell that is at least one cell away from any
+    non-finite sample must be reproduced (the statement's node / complete-cell clauses on the finite part of the map;
+    the interpolation weights 0 * NaN spoil the cells that touch a blank sample, which are outside the judged domain)"""
+    from numpy.lib.stride_tricks import sliding_window_view
+    hdr, hinfo = header_for(idx, rows, cols, rng, f=f)
+    img, (K, L) = make_image(rows, cols, f, rng, linear=True)
+    clean_img = img.copy()
+    bad = np.zeros((rows, cols), dtype=bool)
+    r1, r2 = sorted(int(x) for x in rng.integers(rows // 3, 2 * rows // 3 + 1, 2))
+    c1, c2 = sorted(int(x) for x in rng.integers(cols // 3, 2 * cols // 3 + 1, 2))
+    br, bc = max(1, int(rng.integers(1, rows // 4 + 2))), max(1, int(rng.integers(1, cols // 4 + 2)))
+    if pattern == 'corner_ur':
+        bad[rows - br:, cols - bc:] = True
+    elif pattern == 'corner_ul':
+        bad[rows - br:, :bc] = True
+    elif pattern == 'corner_lr':
+        bad[:br, cols - bc:] = True
+    elif pattern == 'corner_ll':
+        bad[:br, :bc] = True
+    elif pattern == 'central':
+        bad[r1:r2 + 1, c1:c2 + 1] = True
+    elif pattern == 'single_node':
+        bad[(r1 // f) * f, (c1 // f) * f] = True
+    elif pattern == 'single_pixel':
+        bad[r1, c1] = True
+    elif pattern == 'node_row':
+        bad[(r1 // f) * f, :] = True
+    elif pattern == 'row':
+        bad[r1, :] = True
+    elif pattern == 'node_col':
+        bad[:, (c1 // f) * f] = True
+    elif pattern == 'col':
+        bad[:, c1] = True
+    elif pattern == 'two_blocks':
+        bad[rows - br:, cols - bc:] = True
+        bad[r1:r1 + 2, c1:c1 + 2] = True
+    else:
+        raise ValueError(pattern)
+    blank = np.inf if rng.random() < 0.15 else np.nan
+    img[bad] = blank
+    wit = {'rows': rows, 'cols': cols, 'factor': f, 'mode': mode, 'pattern': pattern, 'blank_value': repr(float(blank)),
+           'blank_pixels': int(bad.sum()), 'header': hinfo}
+    hl = fits.HDUList([fits.PrimaryHDU(img.copy(), header=hdr.copy())])
+    opened = []
+    try:
+        try:
+            if mode == 'file':
+                p0, pc = os.path.join(tmp, 'bl.fits'), os.path.join(tmp, 'blc.fits')
+                hl.writeto(p0, overwrite=True)
+                c = ft.compress(p0, f, outfile=pc)
+                if c is not None:
+                    opened.append(c)
+                e = ft.expand(pc) if c is not None else None
+            else:
+                c = ft.compress(hl, f)
+                e = ft.expand(c) if c is not None else None
+        except Exception:
+            o.violate('raises', dict(wit, stage='compress/expand of a map with a blanked region', exc=_tail()))
+            return
+        if e is None:
+            o.violate('returns_none', dict(wit, stage='compress/expand'))
+            return
+        if mode == 'file':
+            opened.append(e)
+        exp = np.squeeze(np.asarray(e[0].data))
+    finally:
+        for h_ in opened:
+            try:
+                h_.close()
+            except Exception:
+                pass
+    o.count('blank_roundtrips')
+    o.count('blank_roundtrips_' + mode)
+    o.see('blank_pattern', pattern)
+    o.n_eval += 1
+    o.n_nontrivial += 1
+    if exp.shape != (rows, cols):
+        o.violate('shape', dict(wit, expanded_shape=list(exp.shape)))
+        return
+    # the samples the compression keeps, on the extended node grid: nodes 0..K (0..L) and the copy of the last row / column
+    fin = np.isfinite(img)
+    ext = np.ones((K + 2, L + 2), dtype=bool)
+    ext[:K + 1, :L + 1] = fin[::f, ::f][:K + 1, :L + 1]
+    ext[K + 1, :L + 1] = fin[-1, ::f][:L + 1]
+    ext[:K + 1, L + 1] = fin[::f, -1][:K + 1]
+    ext[K + 1, L + 1] = fin[-1, -1]
+    pad = np.pad(ext, 1, constant_values=True)
+    clean_node = sliding_window_view(pad, (3, 3)).all(axis=(2, 3))[:K + 1, :L + 1]      # 3x3 neighbourhood finite
+    want = clean_img[::f, ::f][:K + 1, :L + 1].astype(np.float32)
+    got = exp[::f, ::f][:K + 1, :L + 1]
+    o.count('blank_clean_nodes_checked', int(clean_node.sum()))
+    o.count('blank_nodes_next_to_a_blank_not_judged', int((~clean_node).sum()))
+    badn = np.argwhere(clean_node & ~(got == want))
+    if len(badn):
+        b = badn[0]
+        nb = np.argwhere(~ext)
+        dist = float(np.min(np.max(np.abs(nb - b), axis=1))) if len(nb) else None
+        o.violate('nodes', dict(wit, n_bad=int(len(badn)), node=[int(b[0] * f), int(b[1] * f)], expanded=float(got[tuple(b)]),
+                                original=float(want[tuple(b)]), nodes_to_nearest_blank_sample=dist,
+                                what='a finite node not adjacent to any non-finite sample'))
+    # complete cells at least one cell away from every non-finite sample
+    if K >= 1 and L >= 1:
+        pad2 = np.pad(ext, ((1, 1), (1, 1)), constant_values=True)
+        cell_ok = sliding_window_view(pad2, (4, 4)).all(axis=(2, 3))[:K, :L]        # nodes k-1..k+2, l-1..l+2
+        o.count('blank_clean_cells_judged', int(cell_ok.sum()))
+        if cell_ok.any():
+            pix = np.zeros((K * f + 1, L * f + 1), dtype=bool)
+            kk, ll = np.nonzero(cell_ok)
+            for k_, l_ in zip(kk, ll):
+                pix[k_ * f:(k_ + 1) * f + 1, l_ * f:(l_ + 1) * f + 1] = True
+            pix &= ~bad[:K * f + 1, :L * f + 1]                 # blanked non-sample pixels of the input are simply lost
+            M = float(np.max(np.abs(clean_img[::f, ::f][:K + 1, :L + 1])))
+            reg_e = exp[:K * f + 1, :L * f + 1].astype(np.float64)
+            reg_o = clean_img[:K * f + 1, :L * f + 1].astype(np.float64)
+            with np.errstate(invalid='ignore'):
+                err = np.abs(reg_e - reg_o) / (EPS32 * max(M, 1e-30))
+            err = np.where(np.isfinite(reg_e), err, np.inf)
+            worst = float(np.max(err[pix])) if pix.any() else 0.0
+            o.worst('blank_linear_err_ulp32_of_node_range', worst if np.isfinite(worst) else 1e30)
+            if not worst <= LIN_TOL_ULP:
+                w = np.argwhere(pix & ~(err <= LIN_TOL_ULP))[0]
+                o.violate('linear', dict(wit, pixel=[int(w[0]), int(w[1])], expanded=float(reg_e[tuple(w)]),
+                                         original=float(reg_o[tuple(w)]), n_bad=int((pix & ~(err <= LIN_TOL_ULP)).sum()),
+                                         what='a complete cell at least one cell away from every non-finite sample'))
+            far = np.argwhere(~ext)
+            if len(far):
+                o.count('blank_roundtrips_with_blank_samples')
 
 
 # ----------------------------------------------------------------------------- spellings of "a file"
@@ -1078,6 +1229,9 @@ def cases(seed, tier):
     # BANE --compress: both tiers, through the API and through the command line
     for k in range(4 if tier == 'quick' else 16):
         out.append({'kind': 'bane', 'variant': ('api', 'cli')[k % 2], 'seed': [seed, 'bane', k]})
+    # maps with blanked regions (as BANE maps of masked images have)
+    for k in range(6 if tier == 'quick' else 30):
+        out.append({'kind': 'blank', 'n': 36, 'offset': k, 'seed': [seed, 'blank', k]})
     # the ways of naming a file, and the routes by which the aegean command line takes background/noise files
     for k in range(4 if tier == 'quick' else 16):
         out.append({'kind': 'spellings', 'n': 4, 'seed': [seed, 'spellings', k]})
@@ -1163,6 +1317,14 @@ def run(case):
             f = int(rng.choice([4, 5, 7, 8, 10]))
             bane_case(o, rng, rows, cols, f, int(rng.integers(0, 10000)), tmp, variant=case.get('variant', 'api'))
             o.sample = {'rows': rows, 'cols': cols, 'factor': f, 'variant': case.get('variant', 'api')}
+        elif kind == 'blank':
+            for k in range(case['n']):
+                f = int(rng.choice([2, 3, 4, 5, 7, 8, 10]))
+                rows = int(rng.integers(6 * f + 2, 14 * f + 8))
+                cols = int(rng.integers(6 * f + 2, 14 * f + 8))
+                blank_case(o, ft, fits, rng, rows, cols, f, int(rng.integers(0, 10000)), 'file' if k % 4 == 3 else 'mem', tmp,
+                           PATTERNS[(k + case['offset']) % len(PATTERNS)])
+            o.sample = {'n': case['n'], 'patterns': PATTERNS}
         elif kind == 'spellings':
             for k in range(case['n']):
                 rows = int(rng.integers(4, 80))
